@@ -141,7 +141,7 @@ package webtransport
 //@   ensures [C13.nflush] result1 == nil ==> w.c.stream.$writes == old(w.c.stream.$writes) && w.pos == old(w.pos) && w.frameType == old(w.frameType)
 //@   ensures result1 == nil ==> 0 < result0 && result0 <= max && result0 <= len(w.c.writeBuf) - w.pos
 //@   ensures result1 == nil ==> w.err == nil && w.c.writeBuf == old(w.c.writeBuf) && !w.c.isWriting && 9 <= w.pos
-//@   ensures result1 != nil ==> result0 == 0
+//@   ensures [C13.nerr] result1 != nil ==> result0 == 0 && w.c.stream.$writes == old(w.c.stream.$writes)
 
 //@ func (*messageWriter).Write(p)
 //@   props C13, C09
@@ -162,6 +162,8 @@ package webtransport
 //@   ensures [C13.keep]     result1 == nil && old(w.err) == nil ==> forall k int :: 9 <= k && k < old(w.pos) ==> w.c.writeBuf[k] == old(w.c.writeBuf[k])
 //@   ensures [C13.sameBuf]  result1 == nil && old(w.err) == nil ==> w.c.writeBuf == old(w.c.writeBuf) && w.frameType == old(w.frameType) && !w.c.isWriting
 //@   ensures [C13.errw]     old(w.err) != nil ==> result1 == old(w.err) && result0 == 0
+//@   ensures [C13.werr0]    result1 != nil ==> w.c.stream.$writes == old(w.c.stream.$writes)
+//@   ensures [C13.posok]    result1 == nil && old(w.err) == nil ==> 9 <= w.pos && w.pos <= len(w.c.writeBuf)
 
 //@ func (*messageWriter).Close()
 //@   props C13, C09
@@ -214,6 +216,7 @@ package webtransport
 //@   ensures [C13.nwok] result1 == nil ==> wOK(unbox(result0, *messageWriter)) && unbox(result0, *messageWriter).c == c && unbox(result0, *messageWriter).err == nil
 //@   ensures [C13.nwstate] result1 == nil ==> unbox(result0, *messageWriter).pos == 9 && unbox(result0, *messageWriter).frameType == messageType
 //@   ensures [C13.nwnone] old(c.writer) == nil ==> c.stream.$writes == old(c.stream.$writes)
+//@   ensures [C13.nwsame] old(c.writeBuf) != nil ==> c.writeBuf == old(c.writeBuf)
 //@   ensures result1 != nil ==> result0 == nil
 
 //@ func (*Conn).WriteMessage(messageType, data)
